@@ -25,8 +25,9 @@ type Case struct {
 
 func Spec() *mon.Spec {
 	return &mon.Spec{
-		ID:    "C02",
-		Level: "exploration",
+		ID:      "C02",
+		RuleAdd: "Later additions (rounds 4-17): surplus bytes behind a frame (1..8, 256 and 512 bytes); the full 128 x 256 exception cube with content checks; parser panics are caught and reported per entry point.",
+		Level:   "exploration",
 		Rule: "wf: reference-encoded well-formed response frames: FC1/2 every byte count 1..250, FC3/4/23 every even count 2..250, FC5 both values, FC6 PRNG values, FC15 quantities 1..1968, FC16 1..123, FC17 id length 1..120 x additional 0..120; PRNG/structured payloads, boundary+PRNG tid, unit. Each frame goes through the dispatcher(s) (ParseTCPResponse | ParseRTUResponse + ParseRTUResponseWithCRC) and the per-function parser; oracle: no error, every decoded field equals the reference decoder's, Bytes()==frame, FunctionCode()==fc. " +
 			"exc: all 128 exception function codes x all 256 codes x units: nil response, errors.As typed exception with unit/function/code(/tid). mismatch: byte-count field +-1..3 and frames truncated/extended by 1..3 (framing kept consistent), and TCP frames followed by 1..3 bytes their header does not count: must be rejected. weak: byte count 0, 251..255, odd register counts: error or exact decode. distinct key=(kind, fc, framing, byte count, entry point).",
 		Assumptions: []string{"FC17 layout as documented by the library (count = server id length, run status, optional additional data); the specification leaves the split device specific",
